@@ -159,7 +159,7 @@ func RunPeerScenario(ps *PeerScenario) ([]rec.Event, Result) {
 	sess.SetLogger(log.New(os.Stderr, "", 0))
 	sess.SetLogger(discard)
 	if ps.Status {
-		sess.SetStatusUpdater(statusRec{"A", r})
+		sess.SetStatusUpdater(statusRec{side: "A", r: r})
 		l.WriteDelay = time.Duration(ps.WriteDelayMs) * time.Millisecond
 	}
 	if ps.UA[0] != "" {
